@@ -55,6 +55,9 @@ Proof. intros E m Hm. induction Hm as [|m Hm IH]; [reflexivity|].
 (* ------------------------------------------------------------------------------------------ *)
 (* the pieces of fteik2d                                                                        *)
 (* ------------------------------------------------------------------------------------------ *)
+(* conversion must never unfold the big generated constants when comparing two calls *)
+Local Strategy 1000 [fteik2d_p1 fteik2d_p2 sweep2d].
+
 Section Solve.
 Context {T : Type} `{Num T}.
 Variables (slow : arr T) (dz dx zsrc xsrc : T).
